@@ -373,8 +373,8 @@ def dce_post(c):
     rm = [e for e in t if e[0] == '_remove_ugen']
     if not [e for e in t if e[0] == 'loop-head']:
         return z3.And(has, z3.Not(r), z3.BoolVal(not t))                      # has readers: untouched
-    ok = (len(rm) == 1 and t[-1] is rm[0] and len(rm[0][1]) == 1 and rm[0][1][0].k == 'ref'
-          and rm[0][1][0].oid == 'self')                                      # removed last, itself, once
+    ok = (len(rm) == 1 and len(rm[0][1]) == 1 and rm[0][1][0].k == 'ref'
+          and rm[0][1][0].oid == 'self')                                      # itself, exactly once
     return z3.And(z3.Not(has), r, z3.BoolVal(bool(ok)))
 
 
